@@ -739,6 +739,17 @@ func (l *commitLog) checkAndPerformSplit() (bool, error) {
 }
 
 func (l *commitLog) split(oldActiveSegment *segment) error {
+	// The new segment becomes the active one and joins the segment list under
+	// the log's lock. A truncation holds that lock while it rebuilds the list
+	// and picks the active segment: a split that swapped the active segment in
+	// the middle of one (the cleaner's tick rolls full or old segments) had
+	// its segment appended behind whatever the truncation installed, and the
+	// list ended with a segment that is not the active one.
+	l.mu.Lock()
+	defer l.mu.Unlock()
+	if l.activeSegment() != oldActiveSegment {
+		return ErrSegmentExists
+	}
 	offset := l.NewestOffset() + 1
 	l.Logger.Debugf("Appending new log segment for %s with base offset %d", l.Path, offset)
 	segment, err := newSegment(l.Path, offset, l.MaxSegmentBytes, true, "")
@@ -754,10 +765,8 @@ func (l *commitLog) split(oldActiveSegment *segment) error {
 		segment.Delete() // nolint: errcheck
 		return ErrSegmentExists
 	}
-	l.mu.Lock()
 	segments := append(l.segments, segment)
 	l.segments = segments
-	l.mu.Unlock()
 	return nil
 }
 
